@@ -1,7 +1,7 @@
 SPECIFICATION Spec
 CONSTANTS
   Family = "event1"
-  Versions <- VersionsQuick
+  Versions <- VersionsFive
   TypesC <- TypesAll
   Depth = "core"
   FieldSet = "core"
